@@ -38,7 +38,7 @@ var c17Ops = []string{"pushnil", "pushA", "pushB", "pop", "setA", "setB", "setF"
 // c17Nil models a binding whose value is nil: the name is bound (it shadows outer bindings
 // and struct fields), its value is nothing.
 const c17Nil = "\x00nil"
-var c17Names = []string{"a", "b", "F", "g", "zz"}
+var c17Names = []string{"a", "b", "F", "g", "zz", "G"}
 
 // reference model
 type c17Model struct {
@@ -90,6 +90,11 @@ func c17New(root string) (*vuego.Stack, *c17Model) {
 	case "map":
 		m.scopes = []map[string]string{{"a": "rootA", "g": "rootg"}}
 		return vuego.NewStack(map[string]any{"a": "rootA", "g": "rootg"}), m
+	case "typedmap":
+		// root data that is a map, but not a map[string]any: its keys are the fallback
+		m.root = map[string]string{"F": "fieldF", "g": "fieldG"}
+		m.scopes = []map[string]string{{"a": "rootA"}}
+		return vuego.NewStackWithData(map[string]any{"a": "rootA"}, map[string]string{"F": "fieldF", "g": "fieldG"}), m
 	case "struct", "ptr":
 		r := c17Root{F: "fieldF", G: "fieldG"}
 		m.root = map[string]string{"F": "fieldF", "g": "fieldG", "G": "fieldG"}
@@ -111,6 +116,11 @@ func c17Observe(s *vuego.Stack) string {
 		rv, rok := s.Resolve(n)
 		gs, gok := s.GetString(n)
 		ev, eok := env[n]
+		if n == "G" {
+			// the Go name of a JSON-tagged field is reachable by Lookup but not a key of the
+			// environment (recorded finding of C08): observed through Lookup/Resolve/GetString only
+			ev, eok = nil, false
+		}
 		parts = append(parts, fmt.Sprintf("%s:L=%v,%v R=%v,%v S=%v,%v E=%v,%v", n, v, ok, rv, rok, gs, gok, ev, eok))
 	}
 	return strings.Join(parts, " | ")
@@ -137,8 +147,7 @@ func c17Expect(m *c17Model) string {
 			evv = ev
 		}
 		if n == "G" {
-			// the Go name of a JSON-tagged field is reachable by Lookup but, by construction,
-			// not a key of the environment (recorded finding of C08); not part of c17Names
+			evv, eok = nil, false
 		}
 		parts = append(parts, fmt.Sprintf("%s:L=%v,%v R=%v,%v S=%v,%v E=%v,%v", n, lv, ok, lv, ok, gs, gok, evv, eok))
 	}
@@ -492,7 +501,7 @@ func init() {
 			if tier == "thorough" {
 				depth = 7
 			}
-			for _, root := range []string{"nil", "map", "struct", "ptr"} {
+			for _, root := range []string{"nil", "map", "struct", "ptr", "typedmap"} {
 				for _, o1 := range c17Ops {
 					for _, o2 := range c17Ops {
 						emit(&c17Case{Part: "history", Root: root, Prefix: []string{o1, o2}, Depth: depth})
